@@ -15,7 +15,8 @@ EXPLANATION = (
     "(R5/R6/R7) units abstract interpretation: reported residuals/costs and returned x,s,z are exactly "
     "un-equilibrated and tau-normalised, residual definitions (signed linear forms: rx = -Px - A'z - tau q, rz = Ax + s - tau b, ...); (R8) caches and mirrors follow the data; (R9) the units premises hold: equilibrate establishes P~d d c, A~e d, q~d c, b~e and every update form / cached norm keeps them; (R10) stage dataflow of DefaultProblemData::new: no stale input after a reducing stage, construction order presolve -> decomposition, mirrored reversal. NOT decided: that iterates are in K x K*, numerical "
     "accuracy of the KKT solves, rounding."
-    " (R14) presolve drops a row only if the entry b[idx] itself is at/above the contracted bound (C09.R2 re-run).")
+    " (R14) presolve drops a row only if the entry b[idx] itself is at/above the contracted bound (C09.R2 re-run)."
+    ' R7 also: every vector norm in Info::update is the Euclidean norm_scaled (an infinity norm understates the residual by up to sqrt(m)).')
 ASSUMPTIONS = [
     'rustc MIR construction and trait resolution are correct',
     'crate-local traits are implemented only inside the crate (class-hierarchy resolution is complete)',
